@@ -227,6 +227,42 @@ func TestC13_Sort(t *testing.T) {
 		} else {
 			e = ast.Call(fn, ast.A(ast.F("a")))
 		}
+		if fn == "sort_by" && !bad && rapid.IntRange(0, 3).Draw(t, "selected") == 0 {
+			// a selector applied to the sorted array: stability fixes the whole
+			// array, so every element picked from it is determined (an
+			// implementation may fuse sort_by(..)[-1] into a single pass)
+			sel := gen.Pick(t, "selector", [][]ast.Step{{{Kind: ast.SIndex, Index: -1}}, {{Kind: ast.SIndex, Index: 0}}, {{Kind: ast.SIndex, Index: 1}}, {{Kind: ast.SIndex, Index: -2}},
+				{{Kind: ast.SIndex, Index: -1}, {Kind: ast.SField, Name: "id"}}, {{Kind: ast.SIndex, Index: 0}, {Kind: ast.SField, Name: "id"}}, {{Kind: ast.SSlice, Start: ast.I64(-2)}}, {{Kind: ast.SSlice, Stride: ast.I64(-1)}},
+				{{Kind: ast.SSlice, Stop: ast.I64(1)}}, {{Kind: ast.SListStar}, {Kind: ast.SField, Name: "id"}}})
+			var se ast.Expr
+			switch inner := e.(type) {
+			case *ast.Chain:
+				se = inner.With(sel...)
+				if rapid.Bool().Draw(t, "parenthesised") {
+					se = ast.Paren(inner).With(sel...)
+				}
+			default:
+				se = ast.Paren(e).With(sel...)
+			}
+			if rapid.IntRange(0, 3).Draw(t, "piped") == 0 {
+				se = ast.Bin("|", e, &ast.Chain{Head: ast.Head{Kind: ast.HImplicit}, Steps: sel})
+			}
+			stext := ast.RenderWith(se, gen.Chooser{T: t})
+			c.Case()
+			res, _ := model.Eval(se, doc)
+			if res.Undet != "" {
+				c.Skip(res.Undet)
+				return
+			}
+			if modelDiff(t, c, "sort-selected", se, stext, doc, res) {
+				return
+			}
+			c.Label("sort_by-selected")
+			if n > 12 {
+				c.NonTrivial(stext+"\x00"+doc.JSON(), func() any { return map[string]any{"expr": stext, "doc": truncate(doc.JSON(), 200)} })
+			}
+			return
+		}
 		text := ast.RenderWith(e, gen.Chooser{T: t})
 		node := run.FromVal(doc)
 		c.Case()
